@@ -88,7 +88,7 @@ func runTests() error {
 func argvToCmdLineStr(argv []string) string {
 	cmdLine := make([]string, len(argv))
 	copy(cmdLine, argv)
-	escape.CommandLine(cmdLine)
+	escape.Statement(cmdLine)
 	return strings.Join(cmdLine, " ")
 }
 
